@@ -103,6 +103,9 @@ PROFILES = {
     "C05": dict(BASE, X=24, P=7),
     "C06": dict(BASE, N=8, u=7, ub=4, n=8, U=8, P=8, H=4, X=6),
     "C10": dict(BASE, D=4, T=4, C=5),
+    "C04": dict(BASE, D=3, T=2, C=4, X=18),
+    "C07": dict(BASE, X=18, P=7),
+    "C09": dict(BASE, X=10),
 }
 REPLY_KINDS = {
     "default": ["OK", "OK", "OKA", "OKA", "NO", "AGAIN", "MORE", "OKE", "BAD"],
@@ -222,6 +225,13 @@ def history_s(draw, pid, tier, conf=None, max_clients=None, distinct_ids=False, 
             sc.append(draw(event_s(cid, conf, kinds, rkinds, pww)))
         if draw(st.integers(0, 3)) > 0:
             sc.extend(completion(draw, cid, conf, sc, rkinds, pww))
+            # extra rounds: a further (usually well-formed) password followed by another
+            # reply per service - reaches re-login / challenge-response / second-stamp states
+            for _ in range(draw(st.sampled_from([0, 0, 1, 1, 2]))):
+                sc.append(["P", cid, draw(password_s((9, 1) + tuple(pww[2:])))])
+                for s in draw(st.permutations([s[0] for s in conf["services"]])):
+                    if draw(st.integers(0, 4)) > 0:
+                        sc.append(["X", cid, s, draw(reply_s(rkinds)), "cur"])
             if draw(st.integers(0, 2)) == 0:
                 for _ in range(draw(st.integers(1, 4))):
                     sc.append(draw(event_s(cid, conf, kinds, rkinds, pww)))
